@@ -574,6 +574,15 @@ def run_coo(c):
             elif line.strip():
                 u, v, b = line.split()
                 lines.append(f"({cnat(int(u))}, {cnat(int(v))}, {cq(Fraction(float(b)))})")
+        cl = []
+        for line in s.split('\n'):
+            if line.strip() and not line.startswith('#'):
+                u, v, b = line.split()
+                m6 = Fraction(float(b)) * 10 ** 6
+                if m6.denominator != 1:
+                    raise ValueError(f"bias {b!r} has more than six decimals")
+                cl.append(f"({coq_str(line)}, {int(u)}%N, {int(v)}%N, {cz(int(m6))})")
+        extra.append(f"(KCooLines {clist(cl)})")
         extra.append(f"(KCooText 15%nat {bqm.vartype.name} {cbool(c['header'])} {obs_bqm(bqm, T)} {hdr} {clist(lines)} "
                      f"{new.vartype.name} {obs_bqm(new, T)})")
     except ValueError as e:
